@@ -1,7 +1,7 @@
 (* Props/C13.v — C13: pass-through is exact and unknown chunks survive every read-modify-write.
    Chunk level (this file, growing): reading a chunk and writing it again is the identity on bytes,
    whatever its type (known or unknown), and reading what was written is the identity on chunks. *)
-From PNA Require Import Base Crc32 Chunk BaseFacts ChunkFacts.
+From PNA Require Import Base Crc32 Codec Chunk Archive Entry BaseFacts ChunkFacts ArchiveFacts EntryFacts.
 Open Scope N_scope.
 
 Theorem C13_read_then_write_is_identity :
@@ -13,3 +13,48 @@ Theorem C13_write_then_read_is_identity :
   forall c, wf_chunk c -> forall rest, read_chunk_stream (ser_chunk c ++ rest) = Ok (c, rest).
 Proof. exact read_chunk_ser. Qed.
 Print Assumptions C13_write_then_read_is_identity.
+
+(* ---- archive level: copying raw entries reproduces the archive byte for byte ----------------- *)
+Theorem C13_raw_copy_exact :
+  forall num es, num < 2 ^ 32 -> Forall wf_entry es ->
+  exists got st, raw_entries read_chunk_stream (write_raw_archive num es) = Ok (got, FinOk, st) /\
+                 write_raw_archive num got = write_raw_archive num es.
+Proof. exact raw_copy_exact. Qed.
+Print Assumptions C13_raw_copy_exact.
+
+(* ---- entry level: for ALL chunk lists a foreign writer may produce (any order, unknown ancillary
+   and private types, several data chunks, metadata before or after data, duplicated metadata):
+   decode -> encode -> decode gives the same entry up to empty data chunks (normalize), every
+   unknown chunk survives in order, and the bytes are stable from the second pass on *)
+Theorem C13_parse_ser_meaning :
+  forall cs e, parse_entry cs = Ok e ->
+  exists e', parse_entry (ser_entry e) = Ok e' /\ e' = normalize_entry e.
+Proof. exact parse_ser_entry. Qed.
+Print Assumptions C13_parse_ser_meaning.
+
+Theorem C13_ser_stable :
+  forall cs e e', parse_entry cs = Ok e -> parse_entry (ser_entry e) = Ok e' -> ser_entry e' = ser_entry e.
+Proof. exact ser_stable_entry. Qed.
+Print Assumptions C13_ser_stable.
+
+Theorem C13_extras_survive_normal :
+  forall cs e e', parse_normal cs = Ok e -> parse_normal (ser_normal e) = Ok e' -> n_extra e' = n_extra e.
+Proof. exact extras_survive. Qed.
+Print Assumptions C13_extras_survive_normal.
+
+Theorem C13_extras_survive_solid :
+  forall cs e e', parse_solid cs = Ok e -> parse_solid (ser_solid e) = Ok e' ->
+  so_extra e' = so_extra e /\ so_data e' = so_data e.
+Proof. exact extras_survive_solid. Qed.
+Print Assumptions C13_extras_survive_solid.
+
+(* attribute replacement (what the CLI transforms use) touches nothing else *)
+Theorem C13_with_metadata_frame :
+  forall e m,
+  m_raw_size (n_meta (with_metadata e m)) = m_raw_size (n_meta e) /\
+  m_compressed (n_meta (with_metadata e m)) = m_compressed (n_meta e) /\
+  n_data (with_metadata e m) = n_data e /\ n_hdr (with_metadata e m) = n_hdr e /\
+  n_extra (with_metadata e m) = n_extra e /\ n_xattrs (with_metadata e m) = n_xattrs e /\
+  n_phsf (with_metadata e m) = n_phsf e.
+Proof. exact with_metadata_keeps_sizes. Qed.
+Print Assumptions C13_with_metadata_frame.
